@@ -905,8 +905,10 @@ class Cluster(object):
         ro_rev = {n.id: oid for oid, n in tr.ro_ids.items()}
         trans = {}
         for k, v in g('transmissions').items():
-            kid = ro_rev.get(k.id, k.id) if hasattr(k, 'id') else str(k)
-            trans[kid] = int(v['transmitted'])
+            kid = k.id if hasattr(k, 'id') else str(k)
+            if kid in tr.ro_hist and kid not in ro_rev:
+                continue        # transfer state kept under the id of a read-only connection that is gone: unreachable
+            trans[ro_rev.get(kid, kid)] = int(v['transmitted'])
         raw = self._held_blob(sn)
         if raw is None:
             snap = 'none'
